@@ -426,20 +426,31 @@ func (g *Gen) loopAcc(env []binding, d int) r.Val {
 		if g.pick("nostep", 3) == 0 {
 			jspec = r.L(sym(j), g.Expr(TInt, env, d+1)) // no step form: the variable keeps its value
 		}
+		end := r.L(sym("="), sym(it), int64(rapid.IntRange(0, 3).Draw(g.T, "doend")))
+		if g.pick("noresult", 4) == 0 {
+			// no result form: the value of the loop is nil whatever the end test returned
+			g.kind("do-without-result")
+			loop := r.L(sym("do"), r.L(r.L(sym(it), int64(0), r.L(sym("1+"), sym(it))), jspec), r.L(end), g.Expr(TAny, inner, d+2))
+			return r.L(sym("if"), loop, g.Expr(TInt, env, d+1), g.Expr(TInt, env, d+1))
+		}
 		return r.L(sym("do"), r.L(
 			r.L(sym(it), int64(0), r.L(sym("1+"), sym(it))),
 			jspec),
-			r.L(r.L(sym("="), sym(it), int64(rapid.IntRange(0, 3).Draw(g.T, "doend"))), g.Expr(TInt, inner, d+1)),
+			r.L(end, g.Expr(TInt, inner, d+1)),
 			g.Expr(TAny, inner, d+2))
 	default:
 		g.kind("do*")
 		j := "j" + g.varName()
 		inner := with(env, binding{it, tIter}, binding{j, tIter})
-		return r.L(sym("do*"), r.L(
+		end := r.L(sym("="), sym(it), int64(rapid.IntRange(0, 3).Draw(g.T, "doend")))
+		specs := r.L(
 			r.L(sym(it), int64(0), r.L(sym("1+"), sym(it))),
-			r.L(sym(j), r.L(sym("+"), sym(it), g.lit()), r.L(sym("+"), sym(j), sym(it)))),
-			r.L(r.L(sym("="), sym(it), int64(rapid.IntRange(0, 3).Draw(g.T, "doend"))), g.Expr(TInt, inner, d+1)),
-			g.Expr(TAny, inner, d+2))
+			r.L(sym(j), r.L(sym("+"), sym(it), g.lit()), r.L(sym("+"), sym(j), sym(it))))
+		if g.pick("noresult", 4) == 0 {
+			g.kind("do-without-result")
+			return r.L(sym("if"), r.L(sym("do*"), specs, r.L(end), g.Expr(TAny, inner, d+2)), g.Expr(TInt, env, d+1), g.Expr(TInt, env, d+1))
+		}
+		return r.L(sym("do*"), specs, r.L(end, g.Expr(TInt, inner, d+1)), g.Expr(TAny, inner, d+2))
 	}
 }
 
